@@ -1,4 +1,5 @@
 import MpsVerif.Proofs.ServletLift
+import MpsVerif.Props.C01
 /-!
 # C02 — Server answers every request with its own result (no cross-talk): the servlet-tree layer
 
@@ -159,6 +160,14 @@ example : Tr (.ens [.worker (wEx 1), .worker (wEx 2)] false)
          _, rfl, rfl,
          ⟨[.arrive (5, .nat 7), .take, .start [true], .finish 0, .emit 0], _, rfl, rfl⟩,
          ⟨[.arrive (5, .nat 7), .take, .start [true], .finish 0, .emit 0], _, rfl, rfl⟩, trivial⟩
+
+/-- **stream yields outcomes in input order**: `Server.stream` is `fifo_stream(data_stream,
+    self._enqueue, …)` (`_server.py` 470-480), so the order of what a `stream` caller receives is
+    C01's theorem about the `fifo_stream` model with `func = _enqueue` (cited, not re-proved): the
+    outputs are the indices 0, 1, 2, … in order, for every completion order of the requests -/
+theorem C02_stream_order (c : Fifo.Cfg) (s : Fifo.State) (hr : Fifo.Reachable c s) :
+    s.out = List.range s.out.length :=
+  Fifo.C01_in_order c s hr
 
 /-! ### F2's mechanism: with a REUSED uid a fail-fast ensemble crosses results -/
 
